@@ -17,7 +17,7 @@ ASSUMPTIONS = ['expanded element names are unique per content model and wildcard
                'Python re on the expanded content model agrees with the derivative matcher or the case is dropped (oracle_disagreements)',
                'only the built-in simple types string/int/boolean/token/NMTOKEN/decimal/date with clear-cut literals are used; datatypes proper belong to C09',
                'error *codes* are only matched coarsely (class of codes per planted rule)']
-BUDGET = {'quick': 20, 'thorough': 260}
+BUDGET = {'quick': 12, 'thorough': 130}
 WALLCAP = {'quick': 420, 'thorough': 3000}
 
 # ---- error code tables (parsed from the tree that is being checked) -----------------------------------------
@@ -206,7 +206,7 @@ def build_cm_docs(s, cfg, foreign, extra, tier):
     orc = xm.Oracle(s); root = s.elements[0]; tm = orc.tm(root.typ, s.tns)
     alphabet = xm.leaf_symbols(tm, s)
     syms = alphabet + [foreign]
-    cap = 420 if tier == 'quick' else 1400
+    cap = 300 if tier == 'quick' else 1400
     L = xm.enum_bound(len(syms), cap)
     wit = tm.witness(syms)
     base_attrs = xm.valid_attrs(root.typ)
